@@ -1,3 +1,4 @@
 -- root of the library: every property module (kept in sync with bin/props.py)
 import UgoVerif.Props.C15
 import UgoVerif.Props.C17
+import UgoVerif.Props.C13
